@@ -1,8 +1,12 @@
 //! C20 — spatio-temporal constraints are a pure, monotone filter. Table part (engine C) here;
 //! tracker part (engine A) in trk-based checks.
 
+use super::assoc::*;
+use super::trk::*;
 use crate::common::*;
+use crate::sched::{run_jobs, Guarded};
 use serde_json::json;
+use std::sync::Arc;
 use similari::trackers::spatio_temporal_constraints::SpatioTemporalConstraints;
 use std::sync::atomic::{AtomicU64, Ordering};
 
@@ -89,4 +93,114 @@ pub fn run_tables(rep: &Report, tier: Tier) {
     rep.add(e, e, e, e);
     rep.distinct_count(nontrivial.load(Ordering::Relaxed));
     rep.extra("table_probes", json!(e));
+}
+
+fn frame20(word: &[usize], step: usize) -> Vec<Det> {
+    // a fast object: per step still / small hop / half-reach hop / jump beyond reach / missed frame
+    let mut x = 0.0f32;
+    for d in &word[..=step] {
+        x += [0.0f32, 3.5, 11.0, 30.0, 0.0][*d];
+    }
+    let mut v = vec![Det::ltwh(-300.0, 0.0, 10.0, 20.0).conf(0.9)]; // a static bystander
+    if word[step] != 4 {
+        v.insert(0, Det::ltwh(x, 0.0, 10.0, 20.0));
+    }
+    v
+}
+
+pub fn run_trackers(rep: &Report, tier: Tier) {
+    let tables: Vec<(&str, Option<Vec<(usize, f32)>>, bool)> = vec![
+        ("slack", Some(vec![(5, 100.0)]), true),
+        ("slack-two-entries", Some(vec![(1, 50.0), (3, 60.0)]), true),
+        ("tight-then-looser", Some(vec![(1, 0.1), (2, 0.6)]), false),
+        ("gap1-only", Some(vec![(1, 0.3)]), false),
+        ("unsorted-duplicate-gap", Some(vec![(2, 0.05), (1, 1.0), (2, 9.0)]), false),
+    ];
+    let len = tier.pick(5usize, 6usize);
+    let words: Arc<Vec<Vec<usize>>> = Arc::new(super::hist::words(5, len));
+    let calls = std::sync::atomic::AtomicU64::new(0);
+    let blocked = std::sync::atomic::AtomicU64::new(0);
+    for kind in [Kind::Sort, Kind::VisualSort] {
+        for (pos, kw) in [(Pos::Iou(0.3), (0.05f32, 0.00625f32)), (Pos::Maha, (0.05, 0.00625)), (Pos::Maha, (0.5, 0.1))] {
+            if tier == Tier::Quick && kind == Kind::VisualSort && kw.0 < 0.1 && pos == Pos::Maha {
+                continue;
+            }
+            for (tname, table, slack) in &tables {
+                if rep.out_of_time() {
+                    rep.cap_hit("wall budget reached in the tracker part");
+                    return;
+                }
+                let mut cfg = TrkCfg::new(kind);
+                cfg.pos = pos;
+                cfg.kalman_w = kw;
+                cfg.max_idle = 2;
+                cfg.constraints = table.clone();
+                let mut free = cfg.clone();
+                free.constraints = None;
+                let chunk = 16usize;
+                let nchunks = (words.len() + chunk - 1) / chunk;
+                let (ws, c2, f2, slack2) = (words.clone(), cfg.clone(), free.clone(), *slack);
+                let outs = run_jobs(nchunks, move |ci| {
+                    let pc = PosCfg::of(&c2);
+                    let pc_free = PosCfg::of(&f2);
+                    let mut viol: Vec<(Vec<usize>, usize, String, String)> = vec![];
+                    let (mut calls, mut blocked) = (0u64, 0u64);
+                    for w in &ws[ci * chunk..((ci + 1) * chunk).min(ws.len())] {
+                        let mut t = Guarded::new(AnyTrk::new(&c2));
+                        let mut u = Guarded::new(AnyTrk::new(&f2));
+                        for step in 0..w.len() {
+                            let dets = frame20(w, step);
+                            let pre = t.all_stored(false, c2.shards);
+                            let recs = t.predict(0, &dets);
+                            let recs_free = u.predict(0, &dets);
+                            calls += 1;
+                            let now = step + 1;
+                            if slack2 {
+                                if recs != recs_free {
+                                    viol.push((w.clone(), step, "constraints/slack-table-changes-tracking".into(), format!("with the slack table {recs:?}, without constraints {recs_free:?}")));
+                                    break;
+                                }
+                                continue;
+                            }
+                            let dr: Vec<&Det> = dets.iter().collect();
+                            let rr: Vec<&Rec> = recs.iter().collect();
+                            let tr: Vec<&Stored> = pre.iter().collect();
+                            let v = judge_positional(&pc, 0, now, &dr, &rr, &tr);
+                            if let Some((key, what)) = v.violation {
+                                viol.push((w.clone(), step, format!("constraints/{}", key.trim_start_matches("association/")), what));
+                                break;
+                            }
+                            // how often did the table actually remove a pair that was otherwise gated?
+                            for d in &dr {
+                                for tk in &tr {
+                                    if compatible(&pc, d, 0, now, tk) == Some(false) && compatible(&pc_free, d, 0, now, tk) == Some(true) && pair_weight(&pc_free, d, tk).weight.is_some() {
+                                        blocked += 1;
+                                    }
+                                }
+                            }
+                        }
+                    }
+                    (viol, calls, blocked)
+                });
+                for o in outs {
+                    match o {
+                        Ok((viol, c, b)) => {
+                            calls.fetch_add(c, std::sync::atomic::Ordering::Relaxed);
+                            blocked.fetch_add(b, std::sync::atomic::Ordering::Relaxed);
+                            for (w, step, key, what) in viol {
+                                rep.violation(Violation { key, what, replay: json!({"part":"trackers","config":cfg.json(),"table":tname,"word":w,"failing_step":step,"symbols":"0 still, 1 +3.5px, 2 +11px, 3 +30px, 4 missed frame"}) });
+                            }
+                        }
+                        Err(e) => rep.violation(Violation { key: format!("{}/panic-or-deadlock", kind.name()), what: e.chars().take(300).collect(), replay: json!({"part":"trackers","config":cfg.json(),"table":tname}) }),
+                    }
+                }
+            }
+        }
+    }
+    let c = calls.load(std::sync::atomic::Ordering::Relaxed);
+    rep.add(c, c, c, 0);
+    rep.distinct_count(c);
+    rep.extra("tracker_calls", json!(c));
+    rep.extra("gated_pairs_removed_by_a_binding_table", json!(blocked.load(std::sync::atomic::Ordering::Relaxed)));
+    rep.sample(json!({"part":"trackers","table":"tight-then-looser [(1,0.1),(2,0.6)]","word":[1,4,2,0,3]}));
 }
